@@ -443,7 +443,22 @@ def case_tree(case):
     return k.out
 
 
-CASES = {"tree": case_tree}
+# ---------------------------------------------------------------------------
+# second-generation transforms (lead): see mc/compose.py
+
+def case_compose(case):
+    from mc import compose
+    return compose.case_compose(case, "C09")
+
+
+def shard_compose(acc, shard, nshards, params):
+    from mc import compose
+    n0, maxpts, deadline = params
+    core.drive(acc, "compose", case_compose, compose.cases(n0, maxpts), shard, nshards,
+               family="compose[ranks=%d,<=%d points]" % (n0, maxpts), deadline=deadline)
+
+
+CASES = {"tree": case_tree, "compose": case_compose}
 
 
 # ---------------------------------------------------------------------------
@@ -490,6 +505,11 @@ def shard_tree(acc, shard, nshards, params):
 
 def run(ctx):
     q = ctx.quick
+    import time as _t
+    if not getattr(ctx, "only", None) or "compose" in ctx.only:
+        ctx.shards(shard_compose, (2, 3 if q else 4, _t.time() + (60 if q else 600)))
+        ctx.shards(shard_compose, (3, 1 if q else 2, _t.time() + (60 if q else 900)))
+
     allf = ("ts", "te", "f")
     if q:
         plan = [("T2(3,2)", allf, GROUPS, None),
